@@ -13,6 +13,7 @@ R6  first-UIP analysis: structural facts (seen-set, level split, asserting liter
 from ..expr import LocalEnv, canon, show
 from ..facts import AnalysisBroken, kids, short, src, walk
 from ..tables import enum_paths, switch_arms, path_literals, value_of, eq_test
+from ..schema import failure_block
 from .. import cfg, effects
 
 SC = 'smt::sat_core::'
@@ -85,12 +86,16 @@ def r1(ctx, fs):
     env.local_role('p', lambda n, i: n.get('t') == 'smt::lit')        # the literal taken from the propagation queue
     ok = False
     for n in f.nodes():
-        if n.get('k') == 'IfStmt':
-            c = canon(n['slots']['cond'], env, subst=False)
-            if isinstance(c, tuple) and c[0] == '!' and isinstance(c[1], tuple) and c[1][0] == 'mcall' and c[1][1] == 'smt::constr::propagate':
-                iv = c[1][2][2] if isinstance(c[1][2], tuple) and c[1][2][0] == '[]' else None
-                tmp = c[1][2][1] if iv is not None else None
-                for m in walk(n['slots']['then']):
+        if n.get('callee_name') == 'smt::constr::propagate':
+            c1 = canon(n, env, subst=False)
+            fb = failure_block(f, n)
+            if fb is None:
+                continue
+            blk = fb[0]
+            if True:
+                iv = c1[2][2] if isinstance(c1[2], tuple) and c1[2][0] == '[]' else None
+                tmp = c1[2][1] if iv is not None else None
+                for m in walk(blk):
                     if m.get('k') == 'ForStmt':
                         d = m['slots']['init']['c'][0] if m['slots'].get('init') and m['slots']['init'].get('k') == 'DeclStmt' else None
                         if d is None:
@@ -172,15 +177,13 @@ def r3(ctx, fs):
     env = LocalEnv(f)
     sites = []
     for n in f.nodes():
-        if n.get('k') != 'IfStmt':
-            continue
-        c = canon(n['slots']['cond'], env, subst=False)
-        if isinstance(c, tuple) and c[0] == '!' and isinstance(c[1], tuple) and c[1][0] == 'mcall' and c[1][1] in ('smt::constr::propagate', 'smt::theory::propagate', 'smt::theory::check'):
-            sites.append((c[1][1], n))
+        if n.get('callee_name') in ('smt::constr::propagate', 'smt::theory::propagate', 'smt::theory::check'):
+            fb = failure_block(f, n)            # what runs when the call reports a conflict, however the test is spelled
+            if fb is not None:
+                sites.append((n.get('callee_name'), fb[1], fb[0]))
     if len(sites) != 3:
         raise AnalysisBroken('%s: expected three conflict sites, found %d' % (f.id, len(sites)))
-    for name, n in sites:
-        then = n['slots']['then']
+    for name, n, then in sites:
         calls = [x.get('callee_name') for x in walk(then) if x.get('callee_name')]
         root_ret = False
         for m in walk(then):
@@ -442,7 +445,7 @@ def r5(ctx, fs):
             t = cn(st)
             return isinstance(t, tuple) and len(t) == 3 and t[0] == '=' and isinstance(t[1], tuple) and t[1][0] == '[]' and t[1][1] == LITS and is_elem(t[2])
         for p in enum_paths(lp['slots']['body']):
-            L = path_literals(p.conds, cn)
+            L = path_literals(p, cn)
             if L is None:
                 continue
             es = set()
